@@ -31,11 +31,10 @@ Lemma read_frame_header h tail :
 Proof.
   intros (Hv & Hf & Hs & Ho & Hl). pose proof (opcode_ok_lt _ Ho) as Ho'.
   destruct h as [v fl st op len]. cbn [h_version h_flags h_stream h_opcode h_length] in *. subst v.
-  unfold read_frame, bind.
+  unfold read_frame.
   assert (E9 : map_err (fun _ => EHeaderIo) (read_raw 9) (enc_header (mkHeader 132 fl st op len) ++ tail)
                = (Ok (enc_header (mkHeader 132 fl st op len), tail), c0)).
   { unfold map_err, read_raw. rewrite <- (enc_header_len (mkHeader 132 fl st op len)), ntake_app. reflexivity. }
-  rewrite E9. cbv beta iota.
   assert (Ein : run (v <- read_u8 ;;
                 if N.land v 128 =? 0 then fail EFrameFromClient
                 else if negb (N.land v 127 =? 4) then fail EVersionNotSupported
@@ -63,16 +62,7 @@ Proof.
     2:{ unfold wrap_bits. change (8 * N.of_nat 2) with 16.
         assert (0 <= st mod 2 ^ Z.of_N 16 < 2 ^ 16)%Z by (apply Z.mod_pos_bound; lia). lia. }
     exact D. }
-  unfold run in Ein.
-  destruct ((v <- read_u8 ;;
-                if N.land v 128 =? 0 then fail EFrameFromClient
-                else if negb (N.land v 127 =? 4) then fail EVersionNotSupported
-                else
-                  fl <- read_u8 ;; st <- read_be 2 ;; op <- read_u8 ;;
-                  if negb (opcode_ok op) then fail EUnknownOpcode
-                  else len <- read_be 4 ;; ret (mkHeader v fl (to_signed 16 st) op len))
-               (enc_header (mkHeader 132 fl st op len))) as [res c] eqn:Ep.
-  cbn [fst] in Ein. unfold run. rewrite Ep. cbn [fst]. rewrite Ein. cbv beta iota.
+  unfold bind at 1. rewrite E9. cbv beta iota. rewrite Ein. cbv beta iota zeta.
   cbn [h_length]. destruct (ntake len tail) as [[body rest]|]; reflexivity.
 Qed.
 
